@@ -30,33 +30,6 @@ Ltac gr_leaf :=
 Create HintDb grdb.
 Ltac grtac := ctac gr_leaf ltac:(eauto with grdb).
 
-(* ---------- an operation on process j leaves process i <> j alone *)
-Definition obsP (i : nat) (w : world) : pstate * proc := (sts w i, procs w i).
-
-Ltac fr_prim Hne :=
-  apply quiet_prim; intros; unfold obsP; cbn; unfold upd; rewrite ?Hne;
-  repeat match goal with |- context [if ?c then _ else _] => destruct c end; reflexivity.
-
-Ltac frtac Hne :=
-  repeat match goal with
-    | |- quiet _ (ret _) => apply quiet_ret
-    | |- quiet _ (bind getw _) => apply quiet_getw; intros ?w0
-    | |- quiet _ (bind (gets _) _) => apply quiet_gets; intros ?s
-    | |- quiet _ (bind (getp _) _) => apply quiet_getp; intros ?p
-    | |- quiet _ (setp _ _) => unfold setp
-    | |- quiet _ (modp _ _) => unfold modp
-    | |- quiet _ (assert_in _ _ _) => unfold assert_in
-    | |- quiet _ (Model.change_state _ _ _ _) => unfold Model.change_state
-    | |- quiet _ (Model.move _ _ _ _ _ _ _) => unfold Model.move
-    | |- quiet _ (Model.rollback_adjust _ _ _ _) => unfold Model.rollback_adjust
-    | |- quiet _ (modw _) => fr_prim Hne
-    | |- quiet _ (emit _) => fr_prim Hne
-    | |- quiet _ (crash _) => fr_prim Hne
-    | |- quiet _ (if ?c then _ else _) => destruct c
-    | |- quiet _ (match ?x with _ => _ end) => destruct x
-    | |- quiet _ (bind _ _) => apply quiet_bind; [ | intros ? ]
-    end.
-
 Section WithConfig.
 Variable U : Z.
 Variable pconfs : list pconf.
@@ -89,38 +62,13 @@ Proof. induction fuel as [|f IH]; cbn; grtac. Qed.
 Lemma GR_refl w : GR (out w) w.
 Proof. exists []. reflexivity. Qed.
 
-Lemma finish_frame j st i : j <> i -> quiet (obsP i) (finish j st).
-Proof.
-  intros Hne. assert (Hb : Nat.eqb i j = false) by (apply Nat.eqb_neq; congruence).
-  unfold Model.finish. cbv zeta. frtac Hb.
-Qed.
-
-(* ---------- reap and a process without a child: untouched *)
-Lemma reap_untouched i fuel : forall w,
+(* reap and a process without a child: PolicyRun.reap_untouched, in the form used below *)
+Lemma reap_untouched i fuel w :
   K w -> pid (procs w i) = 0 ->
   exists w', reap fuel w = (Some tt, w') /\ K w' /\ sts w' i = sts w i /\ procs w' i = procs w i.
 Proof.
-  induction fuel as [|f IH]; intros w HK Hp; [exists w; auto|].
-  cbn [Model.reap]. unfold bind at 1. unfold getw at 1.
-  destruct (zombies w) as [|[zp st] rest] eqn:Ez; [exists w; auto|].
-  unfold bind at 1. unfold modw at 1. unfold bind at 1. unfold emit at 1.
-  set (w1 := set_out _ _).
-  assert (I1 : inertw w w1) by (subst w1; repeat split; cbn; lia).
-  assert (K1 : K w1) by (eapply K_inert; eassumption).
-  assert (E1 : sts w1 i = sts w i /\ procs w1 i = procs w i) by (subst w1; split; reflexivity).
-  destruct (lookup_hist zp (pidhist w)) as [j|] eqn:EL.
-  - apply lookup_hist_in in EL.
-    assert (Hj : j <> i).
-    { intros ->. destruct (k_hist w HK zp i EL) as [Epid Hr]. lia. }
-    destruct (finish_run U pconfs j zp st w1 K1 EL) as (w2 & E2 & Ep0 & K3).
-    unfold bind at 1. rewrite E2. unfold bind at 1. unfold modw at 1.
-    pose proof (finish_frame j st i Hj w1) as Eq. rewrite E2 in Eq. cbn [snd] in Eq. unfold obsP in Eq.
-    inversion Eq as [[Es Ep]].
-    destruct E1 as [E1s E1p].
-    destruct (IH _ K3) as (w' & E' & K' & Es' & Ep'); [cbn; congruence|].
-    exists w'. split; [exact E' | split; [exact K'|]]. cbn in Es', Ep'. split; congruence.
-  - destruct E1 as [E1s E1p]. destruct (IH _ K1) as (w' & E' & K' & Es' & Ep'); [congruence|].
-    exists w'. split; [exact E' | split; [exact K' | split; congruence]].
+  intros HK Hp. destruct (PolicyRun.reap_untouched U pconfs i fuel w HK Hp) as (w' & E & K' & Eo).
+  exists w'. unfold obsN in Eo. inversion Eo. auto.
 Qed.
 
 (* ---------- reap and a STOPPING process: still STOPPING, or reaped and STOPPED *)
@@ -152,8 +100,8 @@ Proof.
       rewrite E2 in E2'. inversion E2'; subst w2'.
       destruct (reap_untouched i f _ K3) as (w' & E' & K' & Es' & Ep'); [exact Ep2|].
       exists w'. split; [exact E' | split; [exact K'|]]. right. cbn in Es', Ep'. split; congruence.
-    + pose proof (finish_frame j st i Hj w1) as Eq. rewrite E2 in Eq. cbn [snd] in Eq. unfold obsP in Eq.
-      inversion Eq as [[Es Ep]].
+    + pose proof (n_finish U pconfs i j Hj st w1) as Eq. rewrite E2 in Eq. cbn [snd] in Eq. unfold obsN in Eq.
+      inversion Eq as [[Es Ep Eo]].
       destruct E1 as [E1s E1p].
       destruct (IH _ K3) as (w' & E' & K' & H'); [cbn; congruence|].
       exists w'. auto.
